@@ -66,6 +66,9 @@ def _parse_file(file: TextIO) -> RecordsDatabase:
 
         line = line.strip()
 
+        if not line:
+            continue
+
         if line[0] == "[":
             with parsing_error_wrapper(line_number):
                 record_cls, direction = _parse_section(line)
